@@ -717,7 +717,18 @@ fn pred_eval(pd: &Value, k: usize, s: &Symbol) -> bool {
 
 struct Ctx {
     parsers: HashMap<u64, P>,
+    // the texts currently held per instance, in insertion order (used to rebuild the same contents inside
+    // another thread without requiring Parser to be Send or Sync)
+    texts: HashMap<u64, Vec<(PathBuf, String)>>,
     scratch: PathBuf,
+}
+
+fn remember(ctx: &mut Ctx, i: u64, id: &Path, text: Option<&str>) {
+    let v = ctx.texts.entry(i).or_default();
+    v.retain(|(p, _)| p != id);
+    if let Some(t) = text {
+        v.push((id.to_path_buf(), t.to_owned()));
+    }
 }
 
 // ids and paths are relative names; every id is keyed as <scratch>/<name> so that add_content(id, ..)
@@ -745,11 +756,13 @@ fn exec_op(ctx: &mut Ctx, op: &Value, ev: &mut Map<String, Value>) {
     match name {
         "new" => {
             ctx.parsers.insert(i, Parser::new());
+            ctx.texts.insert(i, Vec::new());
         }
         "add" => {
             let (idn, idp) = idpath(ctx, op);
             let text = op["text"].as_str().unwrap_or("");
             let _ = aidl_parser::diagnostic::verif_take_expected();
+            remember(ctx, i, &idp, Some(text));
             let p = ctx.parsers.entry(i).or_insert_with(Parser::new);
             p.add_content(idp.clone(), text);
             let exp = aidl_parser::diagnostic::verif_take_expected();
@@ -767,7 +780,13 @@ fn exec_op(ctx: &mut Ctx, op: &Value, ev: &mut Map<String, Value>) {
                 let _ = std::fs::create_dir_all(dir);
             }
             match mode {
-                "ok" => std::fs::write(&idp, op["text"].as_str().unwrap_or("")).unwrap(),
+                "ok" => {
+                    // leave an identical file untouched (same length and modification time as at the last load)
+                    let want = op["text"].as_str().unwrap_or("").as_bytes().to_vec();
+                    if std::fs::read(&idp).ok().as_deref() != Some(&want[..]) {
+                        std::fs::write(&idp, want).unwrap()
+                    }
+                }
                 "badutf8" => {
                     let mut b = op["text"].as_str().unwrap_or("").as_bytes().to_vec();
                     b.extend_from_slice(&[0xff, 0xfe, 0x80]);
@@ -777,12 +796,16 @@ fn exec_op(ctx: &mut Ctx, op: &Value, ev: &mut Map<String, Value>) {
                     let _ = std::fs::remove_file(&idp);
                 }
             }
+            if mode == "ok" {
+                remember(ctx, i, &idp, Some(op["text"].as_str().unwrap_or("")));
+            }
             let p = ctx.parsers.entry(i).or_insert_with(Parser::new);
             let r = p.add_file(&idp);
             ev.insert("ret".into(), json!(if r.is_ok() { "ok" } else { "err" }));
         }
         "remove" => {
             let (_idn, idp) = idpath(ctx, op);
+            remember(ctx, i, &idp, None);
             let p = ctx.parsers.entry(i).or_insert_with(Parser::new);
             p.remove_content(idp);
         }
@@ -791,7 +814,17 @@ fn exec_op(ctx: &mut Ctx, op: &Value, ev: &mut Map<String, Value>) {
             let scratch = ctx.scratch.clone();
             let p = ctx.parsers.entry(i).or_insert_with(Parser::new);
             let res: Res = if op["thread"].as_bool().unwrap_or(false) {
-                std::thread::scope(|s| s.spawn(|| p.validate()).join().unwrap())
+                // another thread (fresh hash keys): a parser built there from the same (id, content) pairs
+                let texts = ctx.texts.get(&i).cloned().unwrap_or_default();
+                std::thread::spawn(move || {
+                    let mut q: P = Parser::new();
+                    for (id, t) in &texts {
+                        q.add_content(id.clone(), t);
+                    }
+                    q.validate()
+                })
+                .join()
+                .unwrap()
             } else {
                 p.validate()
             };
@@ -1050,7 +1083,7 @@ fn main() {
         }
         let sc: Value = serde_json::from_str(&line).expect("scenario json");
         let sid = sc["sid"].clone();
-        let mut ctx = Ctx { parsers: HashMap::new(), scratch: scratch.clone() };
+        let mut ctx = Ctx { parsers: HashMap::new(), texts: HashMap::new(), scratch: scratch.clone() };
         writeln!(out, "{}", json!({"ev": "Reset", "sid": sid, "out": "ok"})).unwrap();
         let ops = sc["ops"].as_array().cloned().unwrap_or_default();
         for (n, op) in ops.iter().enumerate() {
